@@ -9,6 +9,8 @@
 #include <errno.h>
 #include <algorithm>
 
+extern "C" void __sanitizer_print_stack_trace(void);
+
 namespace sim {
 
 // ---------------------------------------------------------------------------------------------------------------
@@ -339,6 +341,9 @@ bool fault_fires(uint8_t kind, int32_t* arg_out) {
     logf("fault %s op=%zu ord=%u", fault_kind_name(kind), t_op.index, ord);
     char name[64]; snprintf(name, sizeof name, "fault.fired.%s", fault_kind_name(kind));
     count(name);
+#if defined(SIM_FLAVOUR_ASAN) || defined(SIM_FLAVOUR_DBG) || defined(SIM_FLAVOUR_TSAN)
+    if (g.verbose) __sanitizer_print_stack_trace();
+#endif
   }
   return fire;
 }
